@@ -368,6 +368,12 @@ def gen_eid(rng):
             tail = '/'.join(segs)
             if rng.random() < 0.15:
                 tail += 'é中'
+            # RFC 9171 demux = *VCHAR: '?' and '#' are ordinary demux characters
+            r2 = rng.random()
+            if r2 < 0.12:
+                tail += '?' + gen_name(rng, rng.randrange(0, 6), PATH_CHARS + '?#/')
+            elif r2 < 0.2:
+                tail += '#' + gen_name(rng, rng.randrange(0, 6), PATH_CHARS + '?#/')
         ssp = '//' + host + '/' + tail
     return ('dtn', ssp)
 
